@@ -241,6 +241,12 @@ V("C01", "clip-floors-swapped", "fire", "C01.R12", "clipping options packed as (
   ("src/pyhf/pdf.py", '        clip_sample_data: Union[float, None] = None,\n        clip_bin_data: Union[float, None] = None,\n    ):\n        default_backend = pyhf.default_backend\n', '        clip_floors=(None, None),\n    ):\n        default_backend = pyhf.default_backend\n'), ("src/pyhf/pdf.py", '        self.clip_sample_data = clip_sample_data\n        self.clip_bin_data = clip_bin_data\n', '        self.clip_bin_data, self.clip_sample_data = clip_floors\n'), ("src/pyhf/pdf.py", '            batch_size=self.batch_size,\n            clip_sample_data=clip_sample_data,\n            clip_bin_data=clip_bin_data,\n        )\n', '            batch_size=self.batch_size,\n            clip_floors=(clip_sample_data, clip_bin_data),\n        )\n'))
 V("C01", "clip-floors-tuple", "silent", "", "clipping options travel as one tuple, packed and unpacked in the same order",
   ("src/pyhf/pdf.py", '        clip_sample_data: Union[float, None] = None,\n        clip_bin_data: Union[float, None] = None,\n    ):\n        default_backend = pyhf.default_backend\n', '        clip_floors=(None, None),\n    ):\n        default_backend = pyhf.default_backend\n'), ("src/pyhf/pdf.py", '        self.clip_sample_data = clip_sample_data\n        self.clip_bin_data = clip_bin_data\n', '        self.clip_sample_data, self.clip_bin_data = clip_floors\n'), ("src/pyhf/pdf.py", '            batch_size=self.batch_size,\n            clip_sample_data=clip_sample_data,\n            clip_bin_data=clip_bin_data,\n        )\n', '            batch_size=self.batch_size,\n            clip_floors=(clip_sample_data, clip_bin_data),\n        )\n'))
+V("C18", "normfactor-settings-helper", "silent", "", "normfactor settings looked up through a helper rebuilt on every call",
+  ("src/pyhf/writexml.py", "        val = 1\n        low = 0\n        high = 10\n        for p in spec['measurements'][0]['config']['parameters']:\n            if p['name'] == modifierspec['name']:\n                val = p.get('inits', [val])[0]\n                low, high = p.get('bounds', [[low, high]])[0]\n", "        val, (low, high) = _normfactor_settings(spec).get(\n            modifierspec['name'], (1, (0, 10))\n        )\n"), ("src/pyhf/writexml.py", 'def _export_root_histogram(hist_name, data):\n', "def _normfactor_settings(spec):\n    settings = {}\n    for p in spec['measurements'][0]['config']['parameters']:\n        val, (low, high) = settings.get(p['name'], (1, (0, 10)))\n        settings[p['name']] = (\n            p.get('inits', [val])[0],\n            tuple(p.get('bounds', [[low, high]])[0]),\n        )\n    return settings\n\n\ndef _export_root_histogram(hist_name, data):\n"))
+V("C18", "shapesys-vectorised-own-copy", "silent", "", "shapesys relative uncertainty vectorised on its own copy of the nominal data (sample array shared by the callers)",
+  ("src/pyhf/writexml.py", '        _export_root_histogram(\n            attrs[\'HistoName\'],\n            [\n                np.divide(\n                    a, b, out=np.zeros_like(a), where=np.asarray(b) != 0, dtype=\'float\'\n                )\n                for a, b in np.array(\n                    (modifierspec[\'data\'], sampledata), dtype="float"\n                ).T\n            ],\n        )\n    elif modifierspec[\'type\'] == \'shapefactor\':', "        nominal = np.array(sampledata, dtype='float')\n        empty = nominal == 0\n        nominal[empty] = 1.0\n        relative = np.asarray(modifierspec['data'], dtype='float') / nominal\n        relative[empty] = 0.0\n        _export_root_histogram(attrs['HistoName'], relative.tolist())\n    elif modifierspec['type'] == 'shapefactor':"), ("src/pyhf/writexml.py", "    sample = ET.Element('Sample', **attrs)\n    for modspec in samplespec['modifiers']:", "    sample = ET.Element('Sample', **attrs)\n    sampledata = np.asarray(samplespec['data'], dtype='float')\n    for modspec in samplespec['modifiers']:"), ("src/pyhf/writexml.py", "            spec, modspec, channelname, samplespec['name'], samplespec['data']\n        )\n        if modifier is not None:\n            sample.append(modifier)\n    _export_root_histogram(histname, samplespec['data'])", "            spec, modspec, channelname, samplespec['name'], sampledata\n        )\n        if modifier is not None:\n            sample.append(modifier)\n    _export_root_histogram(histname, sampledata)"))
+V("C18", "shapesys-vectorised-aliased", "fire", "C18.R5", "shapesys conversion edits the array that build_sample writes afterwards: empty bins come back as 1.0",
+  ("src/pyhf/writexml.py", '        _export_root_histogram(\n            attrs[\'HistoName\'],\n            [\n                np.divide(\n                    a, b, out=np.zeros_like(a), where=np.asarray(b) != 0, dtype=\'float\'\n                )\n                for a, b in np.array(\n                    (modifierspec[\'data\'], sampledata), dtype="float"\n                ).T\n            ],\n        )\n    elif modifierspec[\'type\'] == \'shapefactor\':', "        nominal = np.asarray(sampledata, dtype='float')\n        empty = nominal == 0\n        nominal[empty] = 1.0\n        relative = np.asarray(modifierspec['data'], dtype='float') / nominal\n        relative[empty] = 0.0\n        _export_root_histogram(attrs['HistoName'], relative.tolist())\n    elif modifierspec['type'] == 'shapefactor':"), ("src/pyhf/writexml.py", "    sample = ET.Element('Sample', **attrs)\n    for modspec in samplespec['modifiers']:", "    sample = ET.Element('Sample', **attrs)\n    sampledata = np.asarray(samplespec['data'], dtype='float')\n    for modspec in samplespec['modifiers']:"), ("src/pyhf/writexml.py", "            spec, modspec, channelname, samplespec['name'], samplespec['data']\n        )\n        if modifier is not None:\n            sample.append(modifier)\n    _export_root_histogram(histname, samplespec['data'])", "            spec, modspec, channelname, samplespec['name'], sampledata\n        )\n        if modifier is not None:\n            sample.append(modifier)\n    _export_root_histogram(histname, sampledata)"))
 
 # ------------------------------------------------------------------ C08
 INF = "src/pyhf/infer/__init__.py"
